@@ -6,7 +6,7 @@
     consistent; then the names are removed again in four orders with the same checks.
 (2) BFS of depth <= 2 over namespace operations (mkdir, create, symlink, mknod, hard link, rm, rmdir, kill_file+unlink) from the states of (1)
     that sit just before a structural event (new directory block, index creation, index split)."""
-import os, json, re, stat, shutil, hashlib
+import zlib, os, json, re, stat, shutil, hashlib
 from vlib.common import *
 from vlib import fsweep
 from xck.image import Image, Malformed
@@ -92,7 +92,7 @@ def sweep_job(j):
         data = open(p, 'rb').read()
         shape = dirblocks(data)
         if shape != prev_shape:
-            thresholds.append((i, before))           # the state just before a structural event
+            thresholds.append((i, zlib.compress(before, 1)))           # the state just before a structural event (compressed: hundreds of them travel back to the parent)
             prev_shape = shape
         if not quick or i < 130 or i % 3 == 0 or shape != prev_shape:
             b = check_state(data, model, 2, '%s/%s after inserting %d names' % (cfg, seq, i + 1), full=(not quick or i % 4 == 0 or i < 40))
@@ -166,6 +166,7 @@ def apply_model(model, tn, op, n, first_existing):
 
 def bfs_job(j):
     cfg, label, data, model0, tn0, depth = j
+    data = zlib.decompress(data)
     w = fsweep.scratch_worker(); p = os.path.join(w, 'c10b.img')
     bad = []; trans = 0; seen = set()
     level = [(data, model0, tn0, ())]
@@ -224,7 +225,17 @@ def main(tier, only=None):
         model = {n: (S_FIFO, 1) for n in names(seq, i)}
         bj.append((cfg, '%s@%d' % (seq, i), img, model, 2, 1 if quick else 2))
     if quick: bj = bj[:40]
-    bres = pmap(bfs_job, bj, chunksize=1) if not ck.expired() else []
+    else:
+        # thorough: every (configuration, sequence) contributes its start states in turn, so that a cut by the deadline thins all configurations alike
+        groups = {}
+        for j in bj: groups.setdefault((j[0], j[1].split('@')[0]), []).append(j)
+        bj = [g[i] for i in range(max(len(g) for g in groups.values())) for g in groups.values() if i < len(g)] if groups else []
+    # the start states are processed in slices so that the global deadline can end the phase (the evidence then says exhaustive: false and how many were done)
+    bres = []; todo = len(bj)
+    for i0 in range(0, len(bj), 32):
+        if ck.expired(): ck.add(exhaustive=False); break
+        bres += pmap(bfs_job, bj[i0:i0 + 32], chunksize=1)
+    ck.cov['bfs_start_states_planned'] = todo; ck.cov['bfs_start_states_done'] = len(bres)
     trans = states = 0
     for cfg, label, bad, t, s in bres:
         trans += t; states += s
